@@ -12,3 +12,17 @@ def register(check, not_yet):
           "(unbounded dividend, enumerated divisors); quot/rem/mod identities decided over exact rationals (z3 Real) by PySym.",
           "Trusted: CrossHair int model, z3 LIA/LRA; Fraction modelled as exact rational with denominator==1 iff integral.",
           "CrossHair symbolic execution + SMT (z3) over Int/Real", "DESIGN.md section 4 C20", "A:crosshair + B:pysym")
+    check("C12", "model_checking",
+          "SMT-based bounded model checking of the real Atom/RefBase methods: the methods' ASTs are compiled to a "
+          "statement-granularity CFG and unrolled with a symbolic schedule (one solver variable per step), uninterpreted "
+          "values, update functions and validator; z3 decides linearizability, validator safety, watch soundness, "
+          "deadlock-freedom and single-thread progress for every schedule within the bound. Solver-chosen schedules are "
+          "replayed on the real class with line-gated threads.",
+          "Bound: 2 threads x 1 op (quick), up to 3 threads / 2 ops (thorough); switches between statements only "
+          "(thread-local statements fused = partial-order reduction). RLock assumed correct; update functions pure.",
+          "SMT bounded model checking (z3) of a CFG generated from the real source, symbolic schedule", "DESIGN.md section 4 C12", "B:pysym")
+    check("C13", "model_checking",
+          "Same BMC engine on Delay (Atom.swap inlined, body = effectful call with ghost invocation counters), Promise "
+          "(Condition model with timed wake-ups) and a PySym path analysis of the Future wrapper against a contract stub.",
+          "Bound: 2-3 racing threads; executors and threading primitives are environment; Condition.wait_for contract stated in evidence.",
+          "SMT bounded model checking (z3), symbolic schedule; PySym for Future", "DESIGN.md section 4 C13", "B:pysym")
